@@ -49,6 +49,7 @@ from vf.core import CheckerError
 
 FAILFILE_ENV = "VF_SCHED_FAILFILE"
 INF = 10**6
+os.environ.setdefault("NO_ET", "1")  # etelemetry's documented opt-out: no version look-up over the network
 
 
 # --------------------------------------------------------------------------- the node body
@@ -286,9 +287,10 @@ class Opts:
     vis: tuple = (INF,)  # lock-visibility delays the script may choose per job: 0 = lock file seen at the
     #                      next observation, d = after d further completions, INF = never seen before the result
     multi: bool = False  # more than one job may finish between two observations
+    probe: bool = False  # mirror loop only: after every observation also read has_errored / all_failed / done of every node
 
     def key(self):
-        return (self.spec, self.variant, self.loop, self.realise, self.k, self.fail, tuple(self.vis), self.multi)
+        return (self.spec, self.variant, self.loop, self.realise, self.k, self.fail, tuple(self.vis), self.multi, self.probe)
 
     def asdict(self):
         return attrs.asdict(self)
@@ -701,6 +703,15 @@ def _drive_mirror(opts, ctl, sub, wf_job):
         tasks, ok = _guard(ctl, "Submitter.get_runnable_tasks", lambda: sub.get_runnable_tasks(g))
         if ok:
             ctl.record_call(tasks)
+        if ok and opts.probe:
+            for n in g.nodes:
+                for prop in ("has_errored", "all_failed", "done"):
+                    v, ok = _guard(ctl, f"NodeExecution.{prop}", lambda: bool(getattr(n, prop)))
+                    if not ok:
+                        return tasks, False
+                    if prop == "has_errored":
+                        ghost = any(ctl.finished.get(label(j)) == "fail" for j in (n._tasks or {}).values())
+                        ctl.ev("probe", n.name, v, ghost)
         return tasks, ok
 
     def not_done():
@@ -944,6 +955,9 @@ def c14_problems(h, spec: WfSpec):
         for lb in st["jobs"]:
             if fin.get(lb) is None:
                 bad.append(("independent-job-not-executed", f"job {lb} has no failed ancestor but was never executed"))
+    for e in h["events"]:
+        if e[0] == "probe" and e[2] != e[3]:
+            bad.append(("has_errored-wrong", f"NodeExecution.has_errored of node {e[1]} is {e[2]} although {'a' if e[3] else 'no'} job of the node has failed"))
     # the error names every failed job
     msgs = {}
     if h["opts"]["loop"] == "real":
@@ -1057,16 +1071,88 @@ def all_jobs_done(h, spec):
 # --------------------------------------------------------------------------- parallel enumeration
 
 
+def compact(h):
+    return {
+        "opts": h["opts"],
+        "choices": h.get("choices"),
+        "events": h["events"],
+        "raised": h["raised"],
+        "stalled": h["stalled"],
+        "error_message": (h.get("error_message") or "")[:400] or None,
+        "from_job": (h.get("from_job") or "")[:400] or None,
+    }
+
+
+def evaluate(pid, h, spec, opts):
+    """-> (problems [(class, text)], nontrivial, stats)"""
+    extra = {}
+    if pid == "C15":
+        probs = c15_problems(h, spec)
+        out = [(None, f"{k}: {t}") for k, t in _dedup(probs)]
+        extra["re-offered after start (function-level observation, absorbed by the loops' de-duplication)"] = reoffers_after_start(h)
+        return out, len(h["jobs"]) >= 2, extra
+    if pid == "C14":
+        probs, failed = c14_problems(h, spec)
+        probs = _dedup(probs)
+        klass = c14_class(h, probs)
+        out = []
+        if probs:
+            text = "; ".join(f"{k}: {t}" for k, t in probs[:4])
+            out.append((klass, text))
+        extra["histories with >=1 failing job"] = 1 if failed else 0
+        extra["histories in which a job fails after it was seen running"] = 1 if any(e[0] == "finish" and e[2] == "fail" and e[3] for e in h["events"]) else 0
+        return out, bool(failed), extra
+    if pid == "C16":
+        probs = c16_problems(h, opts.k)
+        out, seen = [], set()
+        for klass, text, detail in probs:
+            if klass not in seen:
+                seen.add(klass)
+                out.append((klass, text))
+        extra["histories in which not every job ran to completion (liveness, not part of C16)"] = 0 if all_jobs_done(h, spec) else 1
+        extra["histories that reach the limit"] = 1 if max_executing(h) >= opts.k else 0
+        return out, len(h["jobs"]) > opts.k, extra
+    raise CheckerError(pid)
+
+
+def _dedup(probs):
+    seen, out = set(), []
+    for p in probs:
+        if p not in seen:
+            seen.add(p)
+            out.append(p)
+    return out
+
+
+def _partition(args):
+    """fixed prefixes (choice lists) that split the choice tree of one task at `depth` choices"""
+    od, depth = args
+    opts = opts_from(od)
+    out, todo = [], [()]
+    while todo:
+        p = todo.pop()
+        if len(p) >= depth:
+            out.append(tuple(p))
+            continue
+        s = Script(p)
+        drive(opts, s)
+        if len(s.trace) <= len(p):
+            out.append(tuple(p))
+            continue
+        for c in range(s.trace[len(p)][1]):
+            todo.append(tuple(p) + (c,))
+    return od, sorted(out)
+
+
 def _work(args):
-    """enumerate one (opts, fixed prefix, mode) task in a worker process; returns a compact summary"""
-    pid, od, fixed, sample_n, seed = args
+    """enumerate one (opts, fixed prefix) task in a worker process; returns a compact summary"""
+    pid, od, fixed, sample_n, seed, fidelity = args
     opts = opts_from(od)
     spec = CATALOGUE[opts.spec]
-    out = {"opts": od, "fixed": list(fixed), "n": 0, "keys": [], "nontrivial": [], "fails": [], "samples": [], "stats": {}}
+    out = {"opts": od, "fixed": list(fixed), "keys": [], "nontrivial": [], "fails": [], "samples": [], "stats": {}, "fidelity": []}
     st = out["stats"]
 
     def handle(script, h):
-        out["n"] += 1
         key = (opts.key(), tuple(script.choices()))
         probs, nontriv, extra = evaluate(pid, h, spec, opts)
         out["keys"].append(repr(key))
@@ -1076,9 +1162,18 @@ def _work(args):
         if len(out["samples"]) < 1:
             out["samples"].append(compact(h))
         for klass, text in probs:
-            if len(out["fails"]) < 200:
+            if len(out["fails"]) < 60:
                 out["fails"].append({"class": klass, "what": text, "case": compact(h)})
-            st["fail_total"] = st.get("fail_total", 0) + 1
+            else:
+                st["_unlisted"] = st.get("_unlisted", 0) + 1
+        if fidelity:
+            # the same script with the observations realised by REAL job runs must give the same history
+            o2 = attrs.evolve(opts, realise="run")
+            h2 = drive(o2, Script(script.choices()))
+            a = (h["events"], (h["raised"] or {}).get("type"), h["stalled"])
+            b = (h2["events"], (h2["raised"] or {}).get("type"), h2["stalled"])
+            if a != b:
+                out["fidelity"].append({"choices": script.choices(), "synth": compact(h), "run": compact(h2)})
 
     if sample_n:
         rng = random.Random(f"{seed}|{opts.key()}")
@@ -1097,79 +1192,27 @@ def _work(args):
     return out
 
 
-def compact(h):
-    return {"opts": h["opts"], "choices": h.get("choices"), "events": h["events"], "raised": h["raised"], "stalled": h["stalled"], "error_message": (h.get("error_message") or "")[:400] or None, "from_job": (h.get("from_job") or "")[:400] or None}
+def nprocs():
+    return max(2, min(12, (os.cpu_count() or 4) - 2))
 
 
-def evaluate(pid, h, spec, opts):
-    """-> (problems [(class, text)], nontrivial, stats)"""
-    extra = {}
-    if pid == "C15":
-        probs = c15_problems(h, spec)
-        out = [(None, f"{k}: {t}") for k, t in _dedup(probs)]
-        extra["reoffers_after_start"] = reoffers_after_start(h)
-        return out, max_executing(h) >= 1 and len(h["jobs"]) >= 2, extra
-    if pid == "C14":
-        probs, failed = c14_problems(h, spec)
-        probs = _dedup(probs)
-        klass = c14_class(h, probs)
-        out = []
-        if probs:
-            text = "; ".join(f"{k}: {t}" for k, t in probs[:4])
-            out.append((klass, text))
-        extra["histories_with_failure"] = 1 if failed else 0
-        extra["failed_job_seen_running"] = 1 if any(e[0] == "finish" and e[2] == "fail" and e[3] for e in h["events"]) else 0
-        return out, bool(failed), extra
-    if pid == "C16":
-        probs = c16_problems(h, opts.k)
-        out = []
-        seen = set()
-        for klass, text, detail in probs:
-            if klass not in seen:
-                seen.add(klass)
-                out.append((klass, text))
-        extra["max_executing_sum"] = max_executing(h)
-        extra["not_all_jobs_done"] = 0 if all_jobs_done(h, spec) else 1
-        return out, len(h["jobs"]) > opts.k, extra
-    raise CheckerError(pid)
-
-
-def _dedup(probs):
-    seen, out = set(), []
-    for p in probs:
-        if p not in seen:
-            seen.add(p)
-            out.append(p)
-    return out
-
-
-def partition(opts: Opts, depth):
-    """fixed prefixes (choice lists) that split the choice tree of `opts` at `depth` choices"""
-    if depth <= 0:
-        return [()]
-    out, todo = [], [()]
-    while todo:
-        p = todo.pop()
-        s = Script(p)
-        drive(opts, s)
-        if len(s.trace) <= len(p) or len(p) >= depth:
-            out.append(tuple(p))
-            continue
-        n = s.trace[len(p)][1]
-        for c in range(n):
-            todo.append(tuple(p) + (c,))
-    return sorted(out)
-
-
-def run_tasks(ctx, pid, dom, tasks, nproc=10):
-    """tasks: [(opts, fixed, sample_n)] ; feeds `dom`, reports failures through ctx.fail; returns stats"""
+def run_tasks(ctx, pid, dom, tasks, fidelity=False):
+    """tasks: [(opts, sample_n, split_depth)] -- sample_n = 0: exhaustive enumeration of the choice tree.
+    Feeds `dom`, reports failures through ctx.fail, returns summed stats."""
     import multiprocessing as mp
 
-    args = [(pid, o.asdict(), tuple(f), n, ctx.seed) for o, f, n in tasks]
+    temp_root()  # created before forking
     stats = {}
     mpctx = mp.get_context("fork")
-    with mpctx.Pool(min(nproc, max(1, len(args))), maxtasksperchild=None) as pool:
-        for out in pool.imap_unordered(_work, args, chunksize=1):
+    with mpctx.Pool(min(nprocs(), max(1, len(tasks)))) as pool:
+        work = []
+        to_split = [(o.asdict(), d) for o, n, d in tasks if d and not n]
+        parts = dict((repr(od), pre) for od, pre in pool.imap_unordered(_partition, to_split, chunksize=1))
+        for o, n, d in tasks:
+            od = o.asdict()
+            for fixed in parts.get(repr(od), [()]):
+                work.append((pid, od, tuple(fixed), n, ctx.seed, fidelity))
+        for out in pool.imap_unordered(_work, work, chunksize=1):
             for key, nt in zip(out["keys"], out["nontrivial"]):
                 dom.case(key, nontrivial=nt)
             for smp in out["samples"]:
@@ -1179,9 +1222,12 @@ def run_tasks(ctx, pid, dom, tasks, nproc=10):
                 stats[kk] = stats.get(kk, 0) + vv
             for f in out["fails"]:
                 ctx.fail(f["class"], f["what"], f["case"], domain=dom)
-            extra_fail = out["stats"].get("fail_total", 0) - len(out["fails"])
-            if extra_fail > 0:
-                ctx.note(f"{extra_fail} further failing histories of {out['opts']} not listed individually")
+            if out["stats"].get("_unlisted"):
+                ctx.note(f"{out['stats']['_unlisted']} further failing histories of {out['opts']} not listed individually")
+                dom.failed += out["stats"]["_unlisted"]
+            if out["fidelity"]:
+                raise CheckerError(f"harness fidelity: synthesised results and real job runs give different histories: {out['fidelity'][0]}")
+    stats.pop("_unlisted", None)
     return stats
 
 
@@ -1199,7 +1245,10 @@ def std_replay(pid, rec):
     if "opts" not in case or case.get("choices") is None:
         print(f"replay {pid}: no scripted history recorded in this file")
         return 0
-    h, probs = replay_history(pid, case)
+    try:
+        h, probs = replay_history(pid, case)
+    finally:
+        cleanup()
     print(f"replay {pid}: opts={case['opts']} choices={case['choices']}")
     for e in h["events"]:
         print("   ", e)
@@ -1211,3 +1260,116 @@ def std_replay(pid, rec):
         print(f"VIOLATION property={pid} replay={rec.get('_path', '(replayed)')}")
         return 1
     return 0
+
+
+# --------------------------------------------------------------------------- end-to-end replay aid (real workers)
+
+
+def _e2e_child(cfg):
+    """runs in a subprocess: one real submission; prints a json line with what the task bodies did"""
+    import json
+
+    from pydra.engine.submitter import Submitter
+    from pydra.engine.workflow import Workflow
+
+    spec = S(cfg["name"], *cfg["nodes"])
+    root = Path(tempfile.mkdtemp(prefix="vf_sched_e2e_"))
+    log = root / "body.log"
+    ff = root / "fail.txt"
+    os.environ["VF_SCHED_BODYLOG"] = str(log)
+    os.environ[FAILFILE_ENV] = str(ff)
+    ff.write_text("\n".join(cfg.get("fail_ids", [])) + "\n")
+    out = {"error": None}
+    try:
+        W = build(spec)
+        Workflow.clear_cache()
+        kw = dict(cfg.get("submitter", {}))
+        with Submitter(cache_root=root / "cache", **kw) as sub:
+            try:
+                res = sub(W(a=1), raise_errors=False)
+                out["errored"] = bool(res.errored)
+                if res.errored and res.errors:
+                    out["error"] = "".join(res.errors.get("error message", []))[-1500:]
+            except Exception as e:  # noqa
+                out["error"] = f"{type(e).__name__}: {e}"[-1500:]
+        time.sleep(cfg.get("linger", 0.0))
+        ev = []
+        if log.exists():
+            for line in log.read_text().splitlines():
+                kind, jid, t = line.rsplit(" ", 2)
+                ev.append((float(t), kind, jid))
+        ev.sort()
+        names = {100 * (i + 1): nd.name for i, nd in enumerate(spec.nodes)}
+
+        def nm(jid):
+            tag = int(jid.split("<")[0])
+            base = tag - tag % 100
+            return names[base] + (f"[{tag % 100}]" if spec.node(names[base]).split else "")
+
+        cur, mx = 0, 0
+        for t, kind, jid in ev:
+            cur += 1 if kind == "start" else -1
+            mx = max(mx, cur)
+        out["started"] = [nm(j) for t, k, j in ev if k == "start"]
+        out["failed"] = [nm(j) for t, k, j in ev if k == "fail"]
+        out["max_simultaneous_bodies"] = mx
+    finally:
+        shutil.rmtree(root, ignore_errors=True)
+    print("E2E-RESULT " + json.dumps(out), flush=True)
+
+
+def e2e(cfg, timeout=120):
+    import json
+    import subprocess
+    import sys
+
+    env = dict(os.environ)
+    try:
+        p = subprocess.run(
+            [sys.executable, "-c", "import sys, json; from props import _schedharness as H; H._e2e_child(json.loads(sys.argv[1]))", json.dumps(cfg)],
+            capture_output=True,
+            text=True,
+            timeout=timeout,
+            env=env,
+            cwd=str(Path(__file__).resolve().parent.parent),
+        )
+    except subprocess.TimeoutExpired:
+        return {"timeout": True}
+    for line in p.stdout.splitlines():
+        if line.startswith("E2E-RESULT "):
+            return json.loads(line[len("E2E-RESULT ") :])
+    return {"crash": (p.stderr or "")[-400:]}
+
+
+def e2e_c14():
+    """the C14 function-level finding in real runs: node a fails after it was seen running while the independent
+    chain b -> c -> d is half way; the property demands that d still runs"""
+    nodes = ["a@1.5", "b", "c<b@4.0", "d<c"]
+    lines = []
+    for title, sub, fail in [
+        ("cf worker n_procs=2, a fails at 1.5 s while c (independent) is running", {"worker": "cf", "n_procs": 2}, ["100<>"]),
+        ("cf worker n_procs=2, nothing fails", {"worker": "cf", "n_procs": 2}, []),
+        ("debug worker, a fails (sequential loop: the first failure ends the run by design)", {"worker": "debug"}, ["100<>"]),
+    ]:
+        r = e2e({"name": "e2e14", "nodes": nodes, "submitter": sub, "fail_ids": fail, "linger": 0.0})
+        if "started" not in r:
+            lines.append(f"{title}: no result ({r})")
+            continue
+        err = (r.get("error") or "").replace("\n", " ")
+        lines.append(f"{title}: bodies started {r['started']}, failed {r['failed']}, d executed: {'d' in r['started']}, error mentions Job 'a': {(chr(39) + 'a' + chr(39)) in err}, error tail: {err[-160:]!r}")
+    return lines
+
+
+def e2e_c16():
+    nodes = ["a@0.5", "b@4.0", "c@2.5", "d@2.5"]
+    lines = []
+    for title, sub in [
+        ("cf worker n_procs=4 max_concurrent=2, four independent jobs a(0.5s) b(4s) c(2.5s) d(2.5s)", {"worker": "cf", "n_procs": 4, "max_concurrent": 2}),
+        ("debug worker max_concurrent=2, same workflow", {"worker": "debug", "max_concurrent": 2}),
+    ]:
+        r = e2e({"name": "e2e16", "nodes": nodes, "submitter": sub})
+        if "started" not in r:
+            lines.append(f"{title}: no result ({r})")
+            continue
+        lines.append(f"{title}: bodies started {r['started']}, maximum number of task bodies executing simultaneously = {r['max_simultaneous_bodies']}")
+    return lines
